@@ -159,6 +159,15 @@ def gen_tasks(tier, seed):
             if len(r) >= 2 and cls not in ("MinPathCover",):
                 c = [r[0], r[1]]
                 tasks.append({**base, "node_flow": nf if "PathCover" not in cls else None, "constraints": [c], "kwargs": {**kw, "subpath_constraints": [c]}})
+            if inner and cls == "MinFlowDecomp":
+                # paths may start / end at inner nodes: flow = routes of the enlarged route set (so a decomposition exists)
+                v, w = rng.choice(inner), rng.choice(inner)
+                for st, en in (([v], []), ([], [w]), ([v], [w])):
+                    rts = F.dag_routes(G, st, en)
+                    pick = rng.sample(rts, min(3, len(rts)))
+                    nfr = I.node_weights_from_routes(G, pick, [rng.choice((1, 2, 3)) for _ in pick])
+                    if all(nfr[x] > 0 for x in G.nodes()):
+                        tasks.append({**base, "node_flow": nfr, "starts": st, "ends": en, "kwargs": {**kw, "additional_starts": st, "additional_ends": en}})
             if inner and cls in ("kLeastAbsErrors", "kMinPathError", "kPathCover", "MinPathCover"):
                 v, w = rng.choice(inner), rng.choice(inner)
                 tasks.append({**base, "node_flow": nf if "PathCover" not in cls else None, "starts": [v], "ends": [w], "kwargs": {**kw, "additional_starts": [v], "additional_ends": [w]}})
@@ -230,14 +239,23 @@ def expanded_task(task):
         ignore.append([u + ".1", v + ".0"])
     for v in task["ignored"]:
         ignore.append([v + ".0", v + ".1"])
+    wrapper_fd = task["cls"] in ("MinFlowDecomp", "MinFlowDecompCycles")
+    if wrapper_fd:
+        # the edge-mode wrappers take no additional starts/ends: model them by a fresh source / sink with ignored edges
+        for v in task["starts"]:
+            edges.append(("START", v + ".0", None))
+            ignore.append(["START", v + ".0"])
+        for v in task["ends"]:
+            edges.append((v + ".1", "END", None))
+            ignore.append([v + ".1", "END"])
     kw = {k: v for k, v in task["kwargs"].items() if k not in ("elements_to_ignore", "subpath_constraints", "subset_constraints", "additional_starts", "additional_ends")}
     kw["elements_to_ignore"] = ignore
     ck = "subset_constraints" if task["cyc"] else "subpath_constraints"
     if task["constraints"]:
         kw[ck] = [[[v + ".0", v + ".1"] for v in c] for c in task["constraints"]]
-    if task["starts"]:
+    if task["starts"] and not wrapper_fd:
         kw["additional_starts"] = [v + ".0" for v in task["starts"]]
-    if task["ends"]:
+    if task["ends"] and not wrapper_fd:
         kw["additional_ends"] = [v + ".1" for v in task["ends"]]
     return {"cls": task["cls"], "edges": edges, "kwargs": kw}
 
